@@ -83,8 +83,11 @@ def run_one(ch):
             db.trust(key[0], key[1], load_cert(c))
             model[key] = fx.fp(c)
             hist.append(f"pre-pin {key[0]}:{key[1]} {c}")
+        forced_key = None
         for i in range(nops):
             op = ch.choose("op", 5, [5, 5, 2, 4, 2])
+            if forced_key is not None:
+                op = 0
             if op == 3:
                 key = endpoint("sw")
                 c = CERTS[ch.choose("swcert", len(CERTS), [4] * 6 + [2, 2])]
@@ -94,13 +97,25 @@ def run_one(ch):
             if op == 4:
                 key = endpoint("rd")
                 tgt = endpoint("rdt")
+                if ch.chance("rd_to_impostor", 0.5) and tgt != key and tgt not in model:
+                    # make the redirect target an impostor: pin it to another certificate
+                    other = ch.pick("rdpin", fx.SERVER_CERTS)
+                    if other != w.servers[tgt].cert:
+                        db.trust(tgt[0], tgt[1], load_cert(other))
+                        model[tgt] = fx.fp(other)
+                        hist.append(f"pre-pin {tgt[0]}:{tgt[1]} {other}")
                 if tgt == key or w.redirect.get(tgt) is not None or \
                         any(v == key for v in w.redirect.values()):
                     tgt = None
                 w.redirect[key] = tgt
                 hist.append(f"env: {key[0]}:{key[1]} redirects to {tgt}")
+                if tgt is not None and ch.chance("rd_fetch_next", 0.7):
+                    forced_key = key
                 continue
             key = endpoint("ep")
+            if forced_key is not None:
+                key = forced_key
+                forced_key = None
             kind = ["get", "upload", "delete"][op]
             secret = f"SECRET{i}"
             if kind == "get":
